@@ -91,8 +91,8 @@ structure InitDef where
 deriving Repr, Inhabited
 
 structure ClassDef where
-  base : Option Nat
-  mro : List Nat                          -- linearisation, the class itself first (`WF` checks coherence)
+  bases : List Nat                        -- direct base classes, in order (multiple inheritance)
+  mro : List Nat                          -- `__mro__`: the class itself first (`WF` checks coherence)
   attrs : List (Nat × Ty)                 -- annotated attributes declared in this class body
   init : InitDef
   methods : List (Nat × FuncDef)
